@@ -28,7 +28,117 @@ def spec_info(spec_case):
     return ""
 
 
-def static_check(ctx, mode, total, extra="", select=None, oracle_relevant=None, rule="", max_n=None,
+def _framework_of_case(c):
+    """(live: label -> id, rel: set of (id, id)) rebuilt from the IN lines (`iccma n a b ...` or `init` / `op` lines)"""
+    live, rel, nxt = {}, set(), 0
+    for l in c.ins:
+        t = l.split()
+        if not t:
+            continue
+        if t[0] == "iccma":
+            n = int(t[1])
+            live = {str(i + 1): i for i in range(n)}
+            ids = [int(x) for x in t[2:]]
+            rel = set(zip(ids[0::2], ids[1::2]))
+            return live, rel
+        if t[0] == "init":
+            for x in t[1:]:
+                if x not in live:
+                    live[x] = nxt
+                    nxt += 1
+        elif t[0] == "op":
+            k = t[1]
+            if k == "+a":
+                if t[2] not in live:
+                    live[t[2]] = nxt
+                    nxt += 1
+            elif k == "-a":
+                if t[2] in live:
+                    i = live.pop(t[2])
+                    rel = {(a, b) for (a, b) in rel if a != i and b != i}
+            elif k in ("+t", "-t") and t[2] in live and t[3] in live:
+                p = (live[t[2]], live[t[3]])
+                if k == "+t":
+                    rel.add(p)
+                else:
+                    rel.discard(p)
+    return live, rel
+
+
+def poly_judge(c):
+    """Polynomial part of the semantic oracle, for frameworks of ANY size (used where the brute-force oracle skips a case):
+    members of a returned set are (id, label) pairs of the framework, each once; the set is conflict-free, admissible
+    (all but STG), complete (GR, CO, PR, SST, ID), stable (ST), the grounded extension (GR); a credulous YES certificate
+    contains / a skeptical NO certificate omits the listed arguments; GR statuses are grounded membership.
+    Returns None or a `bad ...` verdict."""
+    k = c.kind.split("/")
+    if len(k) < 4 or k[0] not in ("static", "static-multi") or not c.outs:
+        return None
+    sem, q = k[1], k[2]
+    o = parse_outcome(c.outs[0])
+    if o["kind"] not in ("ext", "acc"):
+        return None
+    live, rel = _framework_of_case(c)
+    ids = set(live.values())
+    byid = {i: l for l, i in live.items()}
+    attackers, targets = {i: set() for i in ids}, {i: set() for i in ids}
+    for (a, b) in rel:
+        if a in ids and b in ids:
+            attackers[b].add(a)
+            targets[a].add(b)
+    args = []
+    for l in c.ins:
+        if l.startswith("args "):
+            args = [live[x] for x in l.split()[1:] if x in live]
+    # grounded extension
+    G, D, ch = set(), set(), True
+    while ch:
+        ch = False
+        for a in ids:
+            if a not in G and a not in D and attackers[a] <= D:
+                G.add(a); D |= targets[a]; ch = True
+    if sem == "GR" and o["kind"] == "acc":
+        want = any(a in G for a in args)
+        if (o["status"] == "YES") != want:
+            return "bad poly-grounded-status-%s-expected-%s" % (o["status"], "YES" if want else "NO")
+    e = o.get("ext")
+    if e is None:
+        return None
+    S = set()
+    for m in e:
+        i, _, lab = m.partition(":")
+        if not i.isdigit() or byid.get(int(i)) != lab:
+            return "bad poly-member-%s-is-not-an-argument-of-the-framework" % m
+        if int(i) in S:
+            return "bad poly-duplicate-member"
+        S.add(int(i))
+    hit = set()
+    for a in S:
+        hit |= targets[a]
+    if S & hit:
+        return "bad poly-returned-set-is-not-conflict-free"
+    base = "CO" if (sem == "PR" and q == "DC") else sem
+    if base != "STG":
+        for a in S:
+            if not attackers[a] <= hit:
+                return "bad poly-returned-set-is-not-admissible"
+    if base in ("GR", "CO", "PR", "SST", "ID"):
+        for a in ids - S:
+            if attackers[a] <= hit:
+                return "bad poly-returned-set-is-not-complete"
+    if base == "ST" and (ids - S) - hit:
+        return "bad poly-returned-set-is-not-stable"
+    if base == "GR" and S != G:
+        return "bad poly-returned-set-is-not-the-grounded-extension"
+    if o["kind"] == "acc" and args:
+        if q == "DC" and o["status"] == "YES" and not (set(args) & S):
+            return "bad poly-credulous-certificate-contains-no-listed-argument"
+        if q == "DS" and o["status"] == "NO" and (set(args) & S):
+            return "bad poly-skeptical-certificate-contains-a-listed-argument"
+    return None
+
+
+def static_check(ctx, mode, total,def static_check(ctx, mode, total, extra="", select=None, oracle_relevant=None, rule="", max_n=None,
                  finish=True, tag=None, extra_props=(), count_bound=False, judge=None, extra_stats=None, more_runs=(), spec_opts="", search_judge=None):
     """select(case) -> bool: which generated cases belong to this property.
     oracle_relevant(verdict string) -> bool: which oracle verdicts are violations of THIS property."""
@@ -88,6 +198,10 @@ def static_check(ctx, mode, total, extra="", select=None, oracle_relevant=None, 
             v = verdict_of(sp) if sp else "missing"
             if v.startswith("skipped"):
                 stats["skipped_large"] += 1
+                pv = poly_judge(c)
+                stats["judged_by_the_polynomial_oracle"] = stats.get("judged_by_the_polynomial_oracle", 0) + 1
+                if pv is not None:
+                    v = pv
             elif v == "missing":
                 stats["oracle_verdict_missing"] = stats.get("oracle_verdict_missing", 0) + 1
             else:
